@@ -1,7 +1,14 @@
 (* PicklerProofs.v — proofs about Pickler.v (output/nrpickler.py: dill's recursive save()
-   re-scheduled through a queue).  `expand` (one invocation of save() on one object, given the
-   memo at entry) is ARBITRARY in every theorem of Section PicklerProofs: any object graph, any
-   size, depth, sharing, cycles, any per-type behaviour.
+   re-scheduled through a queue, with the two modes of _save_now: deferred and atomic).
+   `expand` (one invocation of save() on one object, given the memo at entry) and `atomic` (which
+   objects are saved the recursive way when their turn comes) are ARBITRARY in every theorem of
+   Section PicklerProofs: any object graph, any size, depth, sharing, cycles, any per-type
+   behaviour, any choice of atomic objects.
+
+   Main invariant (defunctionalise / refunctionalise): the items in front of the queue are the
+   image of the pending continuation of the recursive run.  A deferred-mode step (D_s) replaces
+   `IS x` by what realsave left of x's body, which is again such an image; an atomic-mode step
+   (D_a) IS the recursive run of x's body followed by the rest, so that case is immediate.
 
    Proved here (all Closed under the global context, see the Print Assumptions at the end):
 
@@ -22,6 +29,13 @@
      runa_depth (runa_f instrumented with the maximal nesting of save()), runa_depth_runa_f,
      realsave_no_descent, realsave_defers_after_first_save,
      chain_depth (recursive depth 31 on a chain 0..30), chain_nr_same (scheduler: same result)
+   the two modes
+     atomic_everywhere_is_the_recursive_pickler : with every object atomic, draining [IS root] is
+       one RunA run (by inversion of the single D_a step, not through the main theorem)
+     atomic_nowhere_is_the_old_scheduler : with no object atomic, Drain is the four-constructor
+       relation of the scheduler before the repair (Drain0)
+     atomic_choice_is_unobservable : two choices of atomic objects give the same dumps
+     mixed_atomic_example (a cycle through an atomic object, root non-atomic)
    non-vacuity / generated cases
      shared_and_cyclic (pcheck on a graph with a shared child and a cycle, GET vs full body
      decided by the memo at entry), shared_and_cyclic_rejects (the checker can say false),
@@ -30,6 +44,7 @@ From EG Require Import Base Pickler.
 
 Section PicklerProofs.
   Variable expand : list nat -> nat -> list action.
+  Variable atomic : nat -> bool.
 
   (* ------------------------------------------------------------------------------------------ *)
   (* 1. relational level: recursive => scheduler                                                *)
@@ -49,7 +64,7 @@ Section PicklerProofs.
   (* running the direct prefix of a save body = draining the same items from the queue *)
   Lemma drain_prefix : forall t m o lz m1 o1 q m' o',
     fold_left lazy_act t ([], m, o) = (lz, m1, o1) ->
-    Drain expand (lz ++ q) m1 o1 m' o' -> Drain expand (map item_of t ++ q) m o m' o'.
+    Drain expand atomic (lz ++ q) m1 o1 m' o' -> Drain expand atomic (map item_of t ++ q) m o m' o'.
   Proof.
     induction t as [|a t IH]; intros m o lz m1 o1 q m' o' Hf Hd; cbn [fold_left map app] in *.
     - injection Hf as <- <- <-. exact Hd.
@@ -62,7 +77,7 @@ Section PicklerProofs.
   (* converse of drain_prefix: what realsave left in the queue continues the drained body *)
   Lemma replay_prefix : forall body m o lz ma oa R m' o',
     fold_left lazy_act body ([], m, o) = (lz, ma, oa) ->
-    Drain expand (map item_of body ++ R) m o m' o' -> Drain expand (lz ++ R) ma oa m' o'.
+    Drain expand atomic (map item_of body ++ R) m o m' o' -> Drain expand atomic (lz ++ R) ma oa m' o'.
   Proof.
     induction body as [|a body IHb]; intros m o lz ma oa R m' o' Hrs Hd; cbn [fold_left map app] in *.
     - injection Hrs as <- <- <-. exact Hd.
@@ -73,22 +88,25 @@ Section PicklerProofs.
   Qed.
 
   Lemma defunctionalise : forall t m o m1 o1, RunA expand t m o m1 o1 ->
-    forall q m' o', Drain expand q m1 o1 m' o' -> Drain expand (map item_of t ++ q) m o m' o'.
+    forall q m' o', Drain expand atomic q m1 o1 m' o' -> Drain expand atomic (map item_of t ++ q) m o m' o'.
   Proof.
     induction 1 as [m o | b t m o m1 o1 _ IH | x t m o m1 o1 _ IH
-                   | x t m o m1 o1 m2 o2 _ IH1 _ IH2]; intros q m' o' Hq; cbn [map app item_of].
+                   | x t m o m1 o1 m2 o2 Hx IH1 _ IH2]; intros q m' o' Hq; cbn [map app item_of].
     - exact Hq.
     - apply D_w. apply IH. exact Hq.
     - apply D_m. apply IH. exact Hq.
-    - destruct (realsave expand x m o) as [[lz ma] oa] eqn:Hrs.
-      eapply D_s; [exact Hrs|]. eapply replay_prefix; [exact Hrs|].
-      apply IH1. apply IH2. exact Hq.
+    - destruct (atomic x) eqn:Hat.
+      + (* atomic mode: the step is the recursive run itself *)
+        eapply D_a; [exact Hat | exact Hx |]. apply IH2. exact Hq.
+      + destruct (realsave expand x m o) as [[lz ma] oa] eqn:Hrs.
+        eapply D_s; [exact Hat | exact Hrs |]. eapply replay_prefix; [exact Hrs|].
+        apply IH1. apply IH2. exact Hq.
   Qed.
 
   (* the scheduler produces exactly the recursive pickler's stream and memo, for every object graph
      on which the recursive pickler terminates - any size, depth, sharing or cycle *)
   Theorem lazy_equals_recursive : forall root m0 o0 m' o',
-    RunA expand (expand m0 root) m0 o0 m' o' -> Drain expand [IS root] m0 o0 m' o'.
+    RunA expand (expand m0 root) m0 o0 m' o' -> Drain expand atomic [IS root] m0 o0 m' o'.
   Proof.
     intros root m0 o0 m' o' H.
     pose proof (defunctionalise [Save root] m0 o0 m' o') as Hd. cbn in Hd.
@@ -99,15 +117,6 @@ Section PicklerProofs.
   (* ------------------------------------------------------------------------------------------ *)
   (* determinism                                                                                *)
 
-  Lemma Drain_det : forall q m o m1 o1, Drain expand q m o m1 o1 ->
-    forall m2 o2, Drain expand q m o m2 o2 -> m1 = m2 /\ o1 = o2.
-  Proof.
-    induction 1 as [m o | b q m o m1 o1 _ IH | x q m o m1 o1 _ IH
-                   | x q lz m o ma oa m1 o1 Hrs _ IH]; intros m2 o2 H2; inversion H2; subst; auto.
-    match goal with H : realsave _ _ _ _ = _ |- _ => rewrite Hrs in H; injection H as <- <- <- end.
-    auto.
-  Qed.
-
   Lemma RunA_det : forall t m o m1 o1, RunA expand t m o m1 o1 ->
     forall m2 o2, RunA expand t m o m2 o2 -> m1 = m2 /\ o1 = o2.
   Proof.
@@ -115,6 +124,20 @@ Section PicklerProofs.
                    | x t m o ma oa m1 o1 _ IH1 _ IH2]; intros m2 o2 H2; inversion H2; subst; auto.
     match goal with H : RunA _ (expand _ _) _ _ _ _ |- _ => apply IH1 in H; destruct H as [<- <-] end.
     auto.
+  Qed.
+
+  Lemma Drain_det : forall q m o m1 o1, Drain expand atomic q m o m1 o1 ->
+    forall m2 o2, Drain expand atomic q m o m2 o2 -> m1 = m2 /\ o1 = o2.
+  Proof.
+    induction 1 as [m o | b q m o m1 o1 _ IH | x q m o m1 o1 _ IH
+                   | x q lz m o ma oa m1 o1 Hat Hrs _ IH
+                   | x q m o ma oa m1 o1 Hat Hx _ IH]; intros m2 o2 H2; inversion H2; subst; auto;
+      try congruence.
+    - match goal with H : realsave _ _ _ _ = _ |- _ => rewrite Hrs in H; injection H as <- <- <- end.
+      auto.
+    - match goal with H : RunA _ (expand _ _) _ _ _ _ |- _ =>
+        destruct (RunA_det _ _ _ _ _ Hx _ _ H) as [<- <-] end.
+      auto.
   Qed.
 
   (* ------------------------------------------------------------------------------------------ *)
@@ -165,12 +188,13 @@ Section PicklerProofs.
 
   (* whenever the scheduler terminates on the image of t followed by q, the recursive pickler
      terminates on t and the scheduler continues with q from there *)
-  Lemma refunctionalise : forall Q m o m' o', Drain expand Q m o m' o' ->
+  Lemma refunctionalise : forall Q m o m' o', Drain expand atomic Q m o m' o' ->
     forall t q, Q = map item_of t ++ q ->
-    exists m1 o1, RunA expand t m o m1 o1 /\ Drain expand q m1 o1 m' o'.
+    exists m1 o1, RunA expand t m o m1 o1 /\ Drain expand atomic q m1 o1 m' o'.
   Proof.
     induction 1 as [m o | b Q m o m' o' Hd IH | x Q m o m' o' Hd IH
-                   | x Q lz m o ma oa m' o' Hrs Hd IH]; intros t q HQ.
+                   | x Q lz m o ma oa m' o' Hat Hrs Hd IH
+                   | x Q m o ma oa m' o' Hat Hx Hd IH]; intros t q HQ.
     - destruct t as [|a t]; [|destruct a; discriminate]. cbn in HQ. subst q.
       exists m, o. split; constructor.
     - destruct t as [|a t]; cbn [map app] in HQ.
@@ -195,11 +219,18 @@ Section PicklerProofs.
         apply RunA_app_inv in Hrt. destruct Hrt as (m2 & o2 & Hr & Ht).
         exists m1, o1. split; [| exact Hq].
         eapply RA_save; [apply Hrest; exact Hr | exact Ht].
+    - (* atomic mode: the step was the recursive run of x's body *)
+      destruct t as [|a t]; cbn [map app] in HQ.
+      + subst q. exists m, o. split; [constructor | eapply D_a; eauto].
+      + destruct a as [c|y|y]; cbn [item_of] in HQ; try discriminate.
+        injection HQ as <- ->.
+        destruct (IH t q eq_refl) as (m1 & o1 & Ht & Hq).
+        exists m1, o1. split; [eapply RA_save; [exact Hx | exact Ht] | exact Hq].
   Qed.
 
   (* whenever the scheduler terminates, so does the recursive pickler, with the same result *)
   Theorem recursive_equals_lazy : forall root m0 o0 m' o',
-    Drain expand [IS root] m0 o0 m' o' -> RunA expand (expand m0 root) m0 o0 m' o'.
+    Drain expand atomic [IS root] m0 o0 m' o' -> RunA expand (expand m0 root) m0 o0 m' o'.
   Proof.
     intros root m0 o0 m' o' H.
     destruct (refunctionalise _ _ _ _ _ H [Save root] [] eq_refl) as (m1 & o1 & Hr & Hq).
@@ -209,7 +240,7 @@ Section PicklerProofs.
   Qed.
 
   Theorem lazy_iff_recursive : forall root m0 o0 m' o',
-    Drain expand [IS root] m0 o0 m' o' <-> RunA expand (expand m0 root) m0 o0 m' o'.
+    Drain expand atomic [IS root] m0 o0 m' o' <-> RunA expand (expand m0 root) m0 o0 m' o'.
   Proof. split; [apply recursive_equals_lazy | apply lazy_equals_recursive]. Qed.
 
   (* ------------------------------------------------------------------------------------------ *)
@@ -254,19 +285,22 @@ Section PicklerProofs.
   Qed.
 
   Lemma drain_f_sound : forall fuel q m o m' o',
-    drain_f expand fuel q m o = Some (m', o') -> Drain expand q m o m' o'.
+    drain_f expand atomic fuel q m o = Some (m', o') -> Drain expand atomic q m o m' o'.
   Proof.
     induction fuel as [|f IH]; intros q m o m' o' H; cbn [drain_f] in H; [discriminate|].
     destruct q as [|[b|x|x] q].
     - injection H as <- <-. constructor.
     - apply D_w. now apply IH.
     - apply D_m. now apply IH.
-    - destruct (realsave expand x m o) as [[lz m1] o1] eqn:E.
-      eapply D_s; [exact E | apply IH; exact H].
+    - destruct (atomic x) eqn:Hat.
+      + destruct (runa_f expand f (expand m x) m o) as [[m1 o1]|] eqn:E; [|discriminate].
+        eapply D_a; [exact Hat | eapply runa_f_sound; exact E | apply IH; exact H].
+      + destruct (realsave expand x m o) as [[lz m1] o1] eqn:E.
+        eapply D_s; [exact Hat | exact E | apply IH; exact H].
   Qed.
 
   Lemma drain_f_mono : forall fuel fuel' q m o r,
-    drain_f expand fuel q m o = Some r -> fuel <= fuel' -> drain_f expand fuel' q m o = Some r.
+    drain_f expand atomic fuel q m o = Some r -> fuel <= fuel' -> drain_f expand atomic fuel' q m o = Some r.
   Proof.
     induction fuel as [|f IH]; intros fuel' q m o r H Hle; cbn [drain_f] in H; [discriminate|].
     destruct fuel' as [|f']; [lia|]. cbn [drain_f].
@@ -274,19 +308,27 @@ Section PicklerProofs.
     - exact H.
     - apply IH; [exact H | lia].
     - apply IH; [exact H | lia].
-    - destruct (realsave expand x m o) as [[lz m1] o1] eqn:E.
-      apply IH; [exact H | lia].
+    - destruct (atomic x) eqn:Hat.
+      + destruct (runa_f expand f (expand m x) m o) as [[m1 o1]|] eqn:E; [|discriminate].
+        rewrite (runa_f_mono f f' _ _ _ _ E) by lia. apply IH; [exact H | lia].
+      + destruct (realsave expand x m o) as [[lz m1] o1] eqn:E.
+        apply IH; [exact H | lia].
   Qed.
 
   Lemma drain_f_complete : forall q m o m' o',
-    Drain expand q m o m' o' -> exists fuel, drain_f expand fuel q m o = Some (m', o').
+    Drain expand atomic q m o m' o' -> exists fuel, drain_f expand atomic fuel q m o = Some (m', o').
   Proof.
     induction 1 as [m o | b q m o m' o' _ [f IH] | x q m o m' o' _ [f IH]
-                   | x q lz m o ma oa m' o' Hrs _ [f IH]].
+                   | x q lz m o ma oa m' o' Hat Hrs _ [f IH]
+                   | x q m o ma oa m' o' Hat Hx _ [f IH]].
     - exists 1. reflexivity.
     - exists (S f). exact IH.
     - exists (S f). exact IH.
-    - exists (S f). cbn [drain_f]. rewrite Hrs. exact IH.
+    - exists (S f). cbn [drain_f]. rewrite Hat, Hrs. exact IH.
+    - destruct (runa_f_complete _ _ _ _ _ Hx) as [fx Ex].
+      exists (S (Nat.max fx f)). cbn [drain_f]. rewrite Hat.
+      rewrite (runa_f_mono fx (Nat.max fx f) _ _ _ _ Ex) by lia.
+      apply (drain_f_mono f (Nat.max fx f) _ _ _ _ IH). lia.
   Qed.
 
   (* ------------------------------------------------------------------------------------------ *)
@@ -304,7 +346,7 @@ Section PicklerProofs.
   (* for every object graph on which the recursive pickler terminates with memo and stream r, the
      queue scheduler terminates with the same memo and stream *)
   Theorem nr_dump_equals_rec_dump : forall fuel root r,
-    rec_dump expand fuel root = Some r -> exists fuel', nr_dump expand fuel' root = Some r.
+    rec_dump expand fuel root = Some r -> exists fuel', nr_dump expand atomic fuel' root = Some r.
   Proof.
     unfold rec_dump, nr_dump. intros fuel root [m' o'] H.
     apply drain_f_complete. apply lazy_equals_recursive.
@@ -313,7 +355,7 @@ Section PicklerProofs.
 
   (* and conversely: the scheduler never terminates where the recursive pickler would not *)
   Theorem rec_dump_equals_nr_dump : forall fuel root r,
-    nr_dump expand fuel root = Some r -> exists fuel', rec_dump expand fuel' root = Some r.
+    nr_dump expand atomic fuel root = Some r -> exists fuel', rec_dump expand fuel' root = Some r.
   Proof.
     unfold rec_dump, nr_dump. intros fuel root [m' o'] H.
     apply runa_f_complete. apply RunA_save_root. apply recursive_equals_lazy.
@@ -321,7 +363,7 @@ Section PicklerProofs.
   Qed.
 
   Lemma nr_dump_sound : forall fuel root m' o',
-    nr_dump expand fuel root = Some (m', o') -> Drain expand [IS root] [] [] m' o'.
+    nr_dump expand atomic fuel root = Some (m', o') -> Drain expand atomic [IS root] [] [] m' o'.
   Proof. unfold nr_dump. intros fuel root m' o' H. eapply drain_f_sound. exact H. Qed.
 
   Lemma rec_dump_sound : forall fuel root m' o',
@@ -332,7 +374,7 @@ Section PicklerProofs.
 
   (* whatever the fuels: two answers are the same answer *)
   Theorem dumps_agree : forall f1 f2 root r1 r2,
-    rec_dump expand f1 root = Some r1 -> nr_dump expand f2 root = Some r2 -> r1 = r2.
+    rec_dump expand f1 root = Some r1 -> nr_dump expand atomic f2 root = Some r2 -> r1 = r2.
   Proof.
     intros f1 f2 root r1 r2 H1 H2.
     destruct (nr_dump_equals_rec_dump _ _ _ H1) as [f3 H3]. unfold nr_dump in *.
@@ -394,7 +436,9 @@ Section PicklerProofs.
   (* The scheduler side: drain_f is a tail-recursive loop (every recursive call of drain_f is the
      whole result of its branch, i.e. a `while` loop over the queue), and its only inner call is
      realsave, which is a fold_left over one save body: it never calls itself, runa_f or drain_f,
-     so the frame depth of the scheduler is 1 whatever the object graph. *)
+     so in deferred mode the frame depth of the scheduler is 1 whatever the object graph.  (In
+     atomic mode the loop calls runa_f on the atomic object's body: the depth is that of the
+     atomic subtree alone - a class or a function -, not of the graph that contains it.) *)
   Lemma realsave_no_descent : forall x m o, exists lz m1 o1, realsave expand x m o = (lz, m1, o1).
   Proof. intros x m o. destruct (realsave expand x m o) as [[lz m1] o1]. eauto. Qed.
 
@@ -419,6 +463,46 @@ Section PicklerProofs.
   Qed.
 End PicklerProofs.
 
+(* ------------------------------------------------------------------------------------------ *)
+(* the two modes taken to their extremes                                                      *)
+
+(* every object atomic: draining [IS root] is literally ONE step, the recursive pickler on root
+   (proved by inversion of that step, independently of lazy_iff_recursive) *)
+Theorem atomic_everywhere_is_the_recursive_pickler : forall expand root m o m' o',
+  Drain expand (fun _ => true) [IS root] m o m' o' <-> RunA expand (expand m root) m o m' o'.
+Proof.
+  intros expand root m o m' o'. split; intro H.
+  - inversion H; subst; [discriminate|].
+    match goal with H' : Drain _ _ [] _ _ _ _ |- _ => inversion H'; subst end. assumption.
+  - eapply D_a; [reflexivity | exact H | constructor].
+Qed.
+
+(* no object atomic: the scheduler as it was before the repair, constructor for constructor *)
+Inductive Drain0 (expand : list nat -> nat -> list action)
+  : list item -> list nat -> list nat -> list nat -> list nat -> Prop :=
+| D0_nil m o : Drain0 expand [] m o m o
+| D0_w b q m o m' o' : Drain0 expand q m (o ++ [b]) m' o' -> Drain0 expand (IW b :: q) m o m' o'
+| D0_m x q m o m' o' :
+    Drain0 expand q (m ++ [x]) (o ++ [put (length m)]) m' o' -> Drain0 expand (IM x :: q) m o m' o'
+| D0_s x q lz m o m1 o1 m' o' :
+    realsave expand x m o = (lz, m1, o1) -> Drain0 expand (lz ++ q) m1 o1 m' o' ->
+    Drain0 expand (IS x :: q) m o m' o'.
+
+Theorem atomic_nowhere_is_the_old_scheduler : forall expand q m o m' o',
+  Drain expand (fun _ => false) q m o m' o' <-> Drain0 expand q m o m' o'.
+Proof.
+  intros expand q m o m' o'. split; intro H.
+  - induction H; try discriminate; econstructor; eauto.
+  - induction H; [constructor | now apply D_w | now apply D_m | eapply D_s; eauto].
+Qed.
+
+(* any two choices of atomic objects give the same dumps: both are the recursive pickler's *)
+Theorem atomic_choice_is_unobservable : forall expand atomic1 atomic2 root m0 o0 m' o',
+  Drain expand atomic1 [IS root] m0 o0 m' o' <-> Drain expand atomic2 [IS root] m0 o0 m' o'.
+Proof.
+  intros; split; intro H; apply lazy_equals_recursive; eapply recursive_equals_lazy; exact H.
+Qed.
+
 (* a chain 0 -> 1 -> ... -> n: object x < n writes, memoises itself and saves x + 1 *)
 Definition chain_expand (n : nat) (_ : list nat) (x : nat) : list action :=
   if x <? n then [Write (2 * x); Memo x; Save (S x)] else [Write (2 * x)].
@@ -430,8 +514,8 @@ Proof. eexists. eexists. vm_compute. reflexivity. Qed.
 
 (* ... while the scheduler (frame depth 1, see realsave_no_descent) returns the very same result *)
 Example chain_nr_same :
-  nr_dump (chain_expand 30) 200 0 = rec_dump (chain_expand 30) 200 0 /\
-  nr_dump (chain_expand 30) 200 0 <> None.
+  nr_dump (chain_expand 30) (fun _ => false) 200 0 = rec_dump (chain_expand 30) 200 0 /\
+  nr_dump (chain_expand 30) (fun _ => false) 200 0 <> None.
 Proof. split; vm_compute; [reflexivity | discriminate]. Qed.
 
 (* ------------------------------------------------------------------------------------------ *)
@@ -449,7 +533,7 @@ Definition shared_cyclic_tbl : list ((nat * nat) * list action) :=
     ((4, 3), [Write 1006]) ].
 
 Example shared_and_cyclic :
-  pcheck (shared_cyclic_tbl, 0,
+  pcheck (shared_cyclic_tbl, [], 0,
           ([0; 1; 3; 2],
            [0; 1; 2; 3; 6; 5; 106; 102; 4; 7; 1002; 1000; 1006; 104; 100])) = true.
 Proof. vm_compute. reflexivity. Qed.
@@ -461,10 +545,10 @@ Proof. eexists. eexists. vm_compute. reflexivity. Qed.
 
 (* the checker does reject: a swapped pair in the expected stream, a wrong memo order *)
 Example shared_and_cyclic_rejects :
-  pcheck (shared_cyclic_tbl, 0,
+  pcheck (shared_cyclic_tbl, [], 0,
           ([0; 1; 3; 2],
            [0; 1; 2; 3; 6; 5; 102; 106; 4; 7; 1002; 1000; 1006; 104; 100])) = false /\
-  pcheck (shared_cyclic_tbl, 0,
+  pcheck (shared_cyclic_tbl, [], 0,
           ([0; 1; 2; 3],
            [0; 1; 2; 3; 6; 5; 106; 102; 4; 7; 1002; 1000; 1006; 104; 100])) = false.
 Proof. split; vm_compute; reflexivity. Qed.
@@ -473,47 +557,89 @@ Proof. split; vm_compute; reflexivity. Qed.
 (* 7. what a `true` from pcheck means *)
 (* (the fuel is kept abstract in the case analysis and pcheck is unfolded by an equation, so that
    the kernel never has to evaluate the dumps on 200 * 200 while re-checking the proof) *)
-Lemma pcheck_unfold : forall tbl root em eo,
-  pcheck (tbl, root, (em, eo)) =
-  match nr_dump (table_expand tbl) (200 * 200) root, rec_dump (table_expand tbl) (200 * 200) root with
+Lemma pcheck_unfold : forall tbl atoms root em eo,
+  pcheck (tbl, atoms, root, (em, eo)) =
+  match nr_dump (table_expand tbl) (fun x => existsb (Nat.eqb x) atoms) (200 * 200) root,
+        rec_dump (table_expand tbl) (200 * 200) root with
   | Some (m, o), Some (m2, o2) =>
       list_eqb Nat.eqb m em && list_eqb Nat.eqb o eo && list_eqb Nat.eqb m2 em && list_eqb Nat.eqb o2 eo
   | _, _ => false
   end.
 Proof. intros. reflexivity. Qed.
 
-Lemma pcheck_gen : forall N tbl root em eo,
-  match nr_dump (table_expand tbl) N root, rec_dump (table_expand tbl) N root with
+Lemma pcheck_gen : forall N tbl atomic root em eo,
+  match nr_dump (table_expand tbl) atomic N root, rec_dump (table_expand tbl) N root with
   | Some (m, o), Some (m2, o2) =>
       list_eqb Nat.eqb m em && list_eqb Nat.eqb o eo && list_eqb Nat.eqb m2 em && list_eqb Nat.eqb o2 eo
   | _, _ => false
   end = true ->
-  nr_dump (table_expand tbl) N root = Some (em, eo) /\
+  nr_dump (table_expand tbl) atomic N root = Some (em, eo) /\
   rec_dump (table_expand tbl) N root = Some (em, eo).
 Proof.
-  intros N tbl root em eo H.
-  destruct (nr_dump (table_expand tbl) N root) as [[m o]|]; [|discriminate].
+  intros N tbl atomic root em eo H.
+  destruct (nr_dump (table_expand tbl) atomic N root) as [[m o]|]; [|discriminate].
   destruct (rec_dump (table_expand tbl) N root) as [[m2 o2]|]; [|discriminate].
   repeat rewrite andb_true_iff in H. destruct H as [[[H1 H2] H3] H4].
   apply (list_eqb_eq Nat.eqb Nat.eqb_eq) in H1, H2, H3, H4. subst. split; reflexivity.
 Qed.
 
-Lemma pcheck_sound : forall tbl root em eo,
-  pcheck (tbl, root, (em, eo)) = true ->
-  nr_dump (table_expand tbl) (200 * 200) root = Some (em, eo) /\
+Lemma pcheck_sound : forall tbl atoms root em eo,
+  pcheck (tbl, atoms, root, (em, eo)) = true ->
+  nr_dump (table_expand tbl) (fun x => existsb (Nat.eqb x) atoms) (200 * 200) root = Some (em, eo) /\
   rec_dump (table_expand tbl) (200 * 200) root = Some (em, eo).
 Proof.
-  intros tbl root em eo H. rewrite pcheck_unfold in H. revert H. apply pcheck_gen.
+  intros tbl atoms root em eo H. rewrite pcheck_unfold in H. revert H. apply pcheck_gen.
 Qed.
 
 (* hence a passing case exhibits both relational runs *)
-Corollary pcheck_relational : forall tbl root em eo,
-  pcheck (tbl, root, (em, eo)) = true ->
-  Drain (table_expand tbl) [IS root] [] [] em eo /\
+Corollary pcheck_relational : forall tbl atoms root em eo,
+  pcheck (tbl, atoms, root, (em, eo)) = true ->
+  Drain (table_expand tbl) (fun x => existsb (Nat.eqb x) atoms) [IS root] [] [] em eo /\
   RunA (table_expand tbl) (table_expand tbl [] root) [] [] em eo.
 Proof.
-  intros tbl root em eo H. apply pcheck_sound in H. destruct H as [H _].
-  apply nr_dump_sound in H. split; [exact H | now apply recursive_equals_lazy].
+  intros tbl atoms root em eo H. apply pcheck_sound in H. destruct H as [H _].
+  apply nr_dump_sound in H. split; [exact H | eapply recursive_equals_lazy; exact H].
+Qed.
+
+(* ------------------------------------------------------------------------------------------ *)
+(* 8. the two modes together: a cycle through an atomic object.  Object 1 is atomic (a class):
+   it writes, memoises itself, saves object 2, writes.  Object 2 saves object 1 unless 1 is
+   memoised already (memo length >= 1 here), in which case it is one write.  Root 0 is not
+   atomic and saves object 1 twice (object 1's body does not look at the memo, so it is run
+   twice).  From root 0 both Save 1 are deferred, and each is then run atomically, its Save 2
+   included (recursively, at memo length 1 resp. 2).  From root 2 (memo empty, not atomic) the
+   cycle 2 -> 1 -> 2 is closed inside the atomic run of 1. *)
+Definition mixed_atomic_tbl : list ((nat * nat) * list action) :=
+  [ ((0, 0), [Write 0; Save 1; Save 1]);
+    ((0, 1), [Write 10; Memo 1; Save 2; Write 12]);
+    ((1, 1), [Write 10; Memo 1; Save 2; Write 12]);
+    ((2, 1), [Write 10; Memo 1; Save 2; Write 12]);
+    ((0, 2), [Write 99; Save 1]);
+    ((1, 2), [Write 20]);
+    ((2, 2), [Write 20]) ].
+
+Example mixed_atomic_example :
+  nr_dump (table_expand mixed_atomic_tbl) (fun x => existsb (Nat.eqb x) [1]) 100 0
+    = Some ([1; 1], [0; 10; 1; 20; 12; 10; 3; 20; 12]) /\
+  rec_dump (table_expand mixed_atomic_tbl) 100 0
+    = Some ([1; 1], [0; 10; 1; 20; 12; 10; 3; 20; 12]) /\
+  nr_dump (table_expand mixed_atomic_tbl) (fun x => existsb (Nat.eqb x) [1]) 100 2
+    = Some ([1], [99; 10; 1; 20; 12]) /\
+  rec_dump (table_expand mixed_atomic_tbl) 100 2
+    = Some ([1], [99; 10; 1; 20; 12]) /\
+  pcheck (mixed_atomic_tbl, [1], 0, ([1; 1], [0; 10; 1; 20; 12; 10; 3; 20; 12])) = true /\
+  pcheck2 (mixed_atomic_tbl, [1], 2, (1, [99; 10; 1; 20; 12])) = true.
+Proof. repeat split; vm_compute; reflexivity. Qed.
+
+(* the atomic step really is taken in it: the drain from root 0 is D_s on 0, then two D_a *)
+Example mixed_atomic_example_steps :
+  realsave (table_expand mixed_atomic_tbl) 0 [] [] = ([IS 1; IS 1], [], [0]) /\
+  RunA (table_expand mixed_atomic_tbl) (table_expand mixed_atomic_tbl [] 1) [] [0] [1] [0; 10; 1; 20; 12] /\
+  RunA (table_expand mixed_atomic_tbl) (table_expand mixed_atomic_tbl [1] 1) [1] [0; 10; 1; 20; 12]
+       [1; 1] [0; 10; 1; 20; 12; 10; 3; 20; 12].
+Proof.
+  split; [reflexivity|].
+  split; (eapply runa_f_sound with (fuel := 20); vm_compute; reflexivity).
 Qed.
 
 Print Assumptions lazy_equals_recursive.
@@ -540,3 +666,8 @@ Print Assumptions chain_nr_same.
 Print Assumptions shared_and_cyclic.
 Print Assumptions pcheck_sound.
 Print Assumptions pcheck_relational.
+Print Assumptions atomic_everywhere_is_the_recursive_pickler.
+Print Assumptions atomic_nowhere_is_the_old_scheduler.
+Print Assumptions atomic_choice_is_unobservable.
+Print Assumptions mixed_atomic_example.
+Print Assumptions mixed_atomic_example_steps.
